@@ -22,8 +22,12 @@ package broker
 import (
 	"context"
 	"encoding/binary"
+	"encoding/json"
 	"fmt"
+	"os"
+	"runtime/debug"
 	"sort"
+	"strconv"
 	"strings"
 	"sync"
 	"testing"
@@ -88,16 +92,85 @@ func coordDefaultCfg(store string, depth int) *coordCfg {
 //	adv     D milliseconds of virtual time pass
 //	failover  the coordinator is stopped and a new one is created over the same store
 type coordEv struct {
+	K coordKind
+	M int8  // member issue number (1..), -1 = ghost
+	G int8  // generation offset: 0 or -1
+	S int8  // subscription index; -1 = unchanged (rejoin)
+	R int8  // rank of the new id
+	T int8  // index into coordAllTPs
+	D int16 // milliseconds
+}
+
+type coordKind uint8
+
+const (
+	coordKJoin coordKind = iota + 1
+	coordKRejoin
+	coordKSync
+	coordKHb
+	coordKCommit
+	coordKLeave
+	coordKAdv
+	coordKFailover
+)
+
+var coordKindNames = map[coordKind]string{coordKJoin: "join", coordKRejoin: "rejoin", coordKSync: "sync", coordKHb: "hb", coordKCommit: "commit",
+	coordKLeave: "leave", coordKAdv: "adv", coordKFailover: "failover"}
+
+func (k coordKind) String() string { return coordKindNames[k] }
+
+// coordEvJSON is the replay form of an event (the struct itself is kept pointer-free
+// because millions of event menus are allocated).
+type coordEvJSON struct {
 	K string `json:"k"`
 	M int    `json:"m,omitempty"`
 	G int    `json:"g,omitempty"`
-	S int    `json:"s,omitempty"`
+	S *int   `json:"s,omitempty"`
 	R int    `json:"r,omitempty"`
 	D int    `json:"d,omitempty"`
 	T string `json:"t,omitempty"`
 }
 
-func coordMemberName(m int) string {
+func (e coordEv) MarshalJSON() ([]byte, error) {
+	j := coordEvJSON{K: e.K.String(), M: int(e.M), G: int(e.G), R: int(e.R), D: int(e.D)}
+	if e.K == coordKJoin || (e.K == coordKRejoin && e.S >= 0) {
+		s := int(e.S)
+		j.S = &s
+	}
+	if e.K == coordKCommit {
+		j.T = coordAllTPs[e.T]
+	}
+	return json.Marshal(j)
+}
+
+func (e *coordEv) UnmarshalJSON(b []byte) error {
+	var j coordEvJSON
+	if err := json.Unmarshal(b, &j); err != nil {
+		return err
+	}
+	*e = coordEv{M: int8(j.M), G: int8(j.G), R: int8(j.R), D: int16(j.D), S: -1}
+	for k, n := range coordKindNames {
+		if n == j.K {
+			e.K = k
+		}
+	}
+	if e.K == 0 {
+		return fmt.Errorf("unknown event kind %q", j.K)
+	}
+	if j.S != nil {
+		e.S = int8(*j.S)
+	} else if e.K == coordKJoin {
+		e.S = 0
+	}
+	for i, tp := range coordAllTPs {
+		if tp == j.T {
+			e.T = int8(i)
+		}
+	}
+	return nil
+}
+
+func coordMemberName(m int8) string {
 	if m == -1 {
 		return "ghost"
 	}
@@ -110,23 +183,23 @@ func (e coordEv) String() string {
 		gen = fmt.Sprintf("cur%+d", e.G)
 	}
 	switch e.K {
-	case "join":
+	case coordKJoin:
 		return fmt.Sprintf("join(new,subs=%v,rank=%d)", coordSubsAlphabet[e.S], e.R)
-	case "rejoin":
+	case coordKRejoin:
 		if e.S >= 0 {
 			return fmt.Sprintf("rejoin(%s,subs=%v)", coordMemberName(e.M), coordSubsAlphabet[e.S])
 		}
 		return fmt.Sprintf("rejoin(%s)", coordMemberName(e.M))
-	case "sync", "hb":
+	case coordKSync, coordKHb:
 		return fmt.Sprintf("%s(%s,gen=%s)", e.K, coordMemberName(e.M), gen)
-	case "commit":
-		return fmt.Sprintf("commit(%s,gen=%s,%s)", coordMemberName(e.M), gen, e.T)
-	case "leave":
+	case coordKCommit:
+		return fmt.Sprintf("commit(%s,gen=%s,%s)", coordMemberName(e.M), gen, coordAllTPs[e.T])
+	case coordKLeave:
 		return fmt.Sprintf("leave(%s)", coordMemberName(e.M))
-	case "adv":
+	case coordKAdv:
 		return fmt.Sprintf("adv(%.1fs)", float64(e.D)/1000)
 	}
-	return e.K
+	return e.K.String()
 }
 
 // ---------------------------------------------------------------- responses
@@ -438,8 +511,10 @@ func coordClusterMeta() metadata.ClusterMetadata {
 	return metadata.ClusterMetadata{Brokers: []protocol.MetadataBroker{{NodeID: 1, Host: "h", Port: 9092}}, ControllerID: 1, Topics: topics}
 }
 
+var coordClusterMetaOnce = coordClusterMeta()
+
 func coordNewStore(mode string) metadata.Store {
-	mem := metadata.NewInMemoryStore(coordClusterMeta())
+	mem := metadata.NewInMemoryStore(coordClusterMetaOnce)
 	if mode == "codec" {
 		return &coordCodecStore{InMemoryStore: mem, groups: map[string][]byte{}}
 	}
@@ -448,8 +523,10 @@ func coordNewStore(mode string) metadata.Store {
 
 func coordSplitTP(tp string) (string, int32) {
 	i := strings.IndexByte(tp, ':')
-	var p int32
-	fmt.Sscanf(tp[i+1:], "%d", &p)
+	p := int32(0)
+	for _, c := range tp[i+1:] {
+		p = p*10 + int32(c-'0')
+	}
 	return tp[:i], p
 }
 
@@ -464,6 +541,15 @@ func coordReadOffsets(store metadata.Store) map[string]int64 {
 		out[tp] = off
 	}
 	return out
+}
+
+func coordTPIndex(tp string) int8 {
+	for i, x := range coordAllTPs {
+		if x == tp {
+			return int8(i)
+		}
+	}
+	return 0
 }
 
 // coordCopyStore builds a second store with the same contents (through the public
@@ -525,6 +611,7 @@ type coordShadow struct {
 // coordStep is one executed request/failover event with everything the oracles may look at.
 type coordStep struct {
 	Ev        coordEv
+	K         string // Ev.K.String()
 	At        time.Time
 	Pre, Post coordProj
 	PreOff    map[string]int64
@@ -557,7 +644,6 @@ type coordOracle interface {
 type coordWorld struct {
 	cfg        *coordCfg
 	orc        coordOracle
-	goid       int64
 	store      metadata.Store
 	c          *GroupCoordinator
 	coordStart time.Time
@@ -573,28 +659,37 @@ type coordWorld struct {
 	panics     int
 }
 
-var coordWorlds sync.Map // goroutine id -> *coordWorld
+// The shimmed rand.Int63 has no arguments and replays run on parallel workers, so the
+// value for "this" replay is handed over under a global mutex: a JoinGroup call that will
+// reach newMemberID locks coordJoinMu and arms the hook; the hook takes the value and
+// releases the mutex (newMemberID is called early in JoinGroup, before the expensive
+// persist step, so the critical section is short). Calls that cannot need a new id (a
+// current member rejoining) do not arm the hook.
+var (
+	coordJoinMu    sync.Mutex
+	coordJoinVal   int64
+	coordJoinArmed bool
+	coordJoinTaken *bool
+)
 
 func init() {
 	vrand.Int63Hook = func() (int64, bool) {
-		v, ok := coordWorlds.Load(vrand.GoID())
-		if !ok {
+		if !coordJoinArmed {
 			return 0, false
 		}
-		w := v.(*coordWorld)
-		if !w.nextValSet {
-			return 0, false
-		}
-		return w.nextVal, true
+		v := coordJoinVal
+		coordJoinArmed = false
+		*coordJoinTaken = true
+		coordJoinMu.Unlock()
+		return v, true
 	}
 }
 
 var coordBrokerInfo = protocol.MetadataBroker{NodeID: 1, Host: "h", Port: 9092}
 
 func coordNewWorld(cfg *coordCfg, orc coordOracle) *coordWorld {
-	w := &coordWorld{cfg: cfg, orc: orc, goid: vrand.GoID(), vals: map[string]int64{}}
+	w := &coordWorld{cfg: cfg, orc: orc, vals: map[string]int64{}}
 	w.led.M = map[string]*coordLedMember{}
-	coordWorlds.Store(w.goid, w)
 	w.store = coordNewStore(cfg.Store)
 	w.startCoordinator()
 	w.cur = coordProject(w.c, w.store)
@@ -610,7 +705,6 @@ func (w *coordWorld) startCoordinator() {
 
 func (w *coordWorld) Close() {
 	w.c.Stop()
-	coordWorlds.Delete(w.goid)
 	synctest.Wait()
 }
 
@@ -674,66 +768,66 @@ func (w *coordWorld) Enabled() []coordEv {
 	if w.dead != "" {
 		return nil
 	}
-	var evs []coordEv
+	evs := make([]coordEv, 0, 64)
 	p := &w.cur
 	if len(p.IDs) < w.cfg.MaxLive && len(w.ids) < w.cfg.MaxIssued {
 		for s := range coordSubsAlphabet {
 			for r := 0; r <= len(p.IDs); r++ {
-				evs = append(evs, coordEv{K: "join", S: s, R: r})
+				evs = append(evs, coordEv{K: coordKJoin, S: int8(s), R: int8(r)})
 			}
 		}
 	}
-	var live []int
+	var live []int8
 	for i, id := range w.ids {
 		if p.has(id) {
-			live = append(live, i+1)
+			live = append(live, int8(i+1))
 		}
 	}
 	for _, m := range live {
-		evs = append(evs, coordEv{K: "sync", M: m}, coordEv{K: "sync", M: m, G: -1})
+		evs = append(evs, coordEv{K: coordKSync, M: m}, coordEv{K: coordKSync, M: m, G: -1})
 	}
 	for _, m := range live {
-		evs = append(evs, coordEv{K: "hb", M: m}, coordEv{K: "hb", M: m, G: -1})
+		evs = append(evs, coordEv{K: coordKHb, M: m}, coordEv{K: coordKHb, M: m, G: -1})
 	}
 	for _, m := range live {
-		evs = append(evs, coordEv{K: "rejoin", M: m, S: -1})
+		evs = append(evs, coordEv{K: coordKRejoin, M: m, S: -1})
 		if w.cfg.Resub {
 			cur := w.led.M[w.ids[m-1]]
 			for s, subs := range coordSubsAlphabet {
 				if cur != nil && strings.Join(cur.Subs, ",") == strings.Join(subs, ",") {
 					continue
 				}
-				evs = append(evs, coordEv{K: "rejoin", M: m, S: s})
+				evs = append(evs, coordEv{K: coordKRejoin, M: m, S: int8(s)})
 			}
 		}
 	}
 	for _, m := range live {
 		for _, tp := range w.cfg.CommitTPs {
-			evs = append(evs, coordEv{K: "commit", M: m, T: tp}, coordEv{K: "commit", M: m, G: -1, T: tp})
+			evs = append(evs, coordEv{K: coordKCommit, M: m, T: coordTPIndex(tp)}, coordEv{K: coordKCommit, M: m, G: -1, T: coordTPIndex(tp)})
 		}
 	}
 	for _, m := range live {
-		evs = append(evs, coordEv{K: "leave", M: m})
+		evs = append(evs, coordEv{K: coordKLeave, M: m})
 	}
 	if p.Exists {
 		for _, d := range w.cfg.Deltas {
-			evs = append(evs, coordEv{K: "adv", D: int(d / time.Millisecond)})
+			evs = append(evs, coordEv{K: coordKAdv, D: int16(d / time.Millisecond)})
 		}
-		evs = append(evs, coordEv{K: "failover"})
+		evs = append(evs, coordEv{K: coordKFailover})
 	}
 	// members that are not (or no longer) in the group
-	stale := []int{}
+	stale := []int8{}
 	if w.departed != 0 && !p.has(w.idOf(w.departed)) {
-		stale = append(stale, w.departed)
+		stale = append(stale, int8(w.departed))
 	}
 	stale = append(stale, -1)
 	for _, m := range stale {
-		evs = append(evs, coordEv{K: "commit", M: m, T: w.cfg.CommitTPs[0]}, coordEv{K: "hb", M: m}, coordEv{K: "sync", M: m})
+		evs = append(evs, coordEv{K: coordKCommit, M: m, T: coordTPIndex(w.cfg.CommitTPs[0])}, coordEv{K: coordKHb, M: m}, coordEv{K: coordKSync, M: m})
 		if m != -1 {
-			evs = append(evs, coordEv{K: "commit", M: m, G: -1, T: w.cfg.CommitTPs[0]})
+			evs = append(evs, coordEv{K: coordKCommit, M: m, G: -1, T: coordTPIndex(w.cfg.CommitTPs[0])})
 		}
 	}
-	evs = append(evs, coordEv{K: "leave", M: -1})
+	evs = append(evs, coordEv{K: coordKLeave, M: -1})
 	return evs
 }
 
@@ -762,7 +856,7 @@ func (w *coordWorld) joinRequest(memberID string, subs []string) *kmsg.JoinGroup
 // code under test is recovered (and c.mu released so that Stop/cleanup cannot hang).
 func (w *coordWorld) call(c *GroupCoordinator, st *coordStep) (r *coordResp) {
 	ctx := context.Background()
-	kind := st.Ev.K
+	kind := st.K
 	defer func() {
 		if p := recover(); p != nil {
 			r = &coordResp{Kind: kind, Panic: fmt.Sprint(p)}
@@ -776,7 +870,22 @@ func (w *coordWorld) call(c *GroupCoordinator, st *coordStep) (r *coordResp) {
 	r = &coordResp{Kind: kind}
 	switch kind {
 	case "join", "rejoin":
-		resp, err := c.JoinGroup(ctx, w.joinRequest(st.ReqMember, st.ReqSubs))
+		req := w.joinRequest(st.ReqMember, st.ReqSubs)
+		needID := w.nextValSet && (st.ReqMember == "" || !st.Pre.has(st.ReqMember))
+		resp, err := func() (*kmsg.JoinGroupResponse, error) {
+			if needID {
+				coordJoinMu.Lock()
+				consumed := false
+				coordJoinVal, coordJoinArmed, coordJoinTaken = w.nextVal, true, &consumed
+				defer func() {
+					if !consumed { // the hook was not reached: the mutex is still ours
+						coordJoinArmed = false
+						coordJoinMu.Unlock()
+					}
+				}()
+			}
+			return c.JoinGroup(ctx, req)
+		}()
 		if err != nil {
 			r.GoErr = err.Error()
 			return r
@@ -814,7 +923,7 @@ func (w *coordWorld) call(c *GroupCoordinator, st *coordStep) (r *coordResp) {
 	case "commit":
 		req := kmsg.NewPtrOffsetCommitRequest()
 		req.Group, req.MemberID, req.Generation = coordGroup, st.ReqMember, st.ReqGen
-		t, p := coordSplitTP(st.Ev.T)
+		t, p := coordSplitTP(coordAllTPs[st.Ev.T])
 		rt := kmsg.NewOffsetCommitRequestTopic()
 		rt.Topic = t
 		rp := kmsg.NewOffsetCommitRequestTopicPartition()
@@ -842,23 +951,23 @@ func (w *coordWorld) step(e coordEv, judged bool) (string, []xstate.Violation) {
 	if w.dead != "" {
 		return "dead", nil
 	}
-	if e.K == "adv" {
+	if e.K == coordKAdv {
 		return w.advance(e, judged)
 	}
-	st := &coordStep{Ev: e, At: time.Now(), Pre: w.cur, PreOff: w.curOff}
+	st := &coordStep{Ev: e, K: e.K.String(), At: time.Now(), Pre: w.cur, PreOff: w.curOff}
 	var viol []xstate.Violation
-	if e.K == "failover" {
+	if e.K == coordKFailover {
 		w.c.Stop()
 		synctest.Wait()
 		w.startCoordinator()
 	} else {
 		switch e.K {
-		case "join":
+		case coordKJoin:
 			st.ReqMember = ""
 			st.ReqSubs = coordSubsAlphabet[e.S]
-			w.nextVal, w.nextValSet = w.pickVal(e.R), true
-		case "rejoin":
-			st.ReqMember = w.idOf(e.M)
+			w.nextVal, w.nextValSet = w.pickVal(int(e.R)), true
+		case coordKRejoin:
+			st.ReqMember = w.idOf(int(e.M))
 			if e.S >= 0 {
 				st.ReqSubs = coordSubsAlphabet[e.S]
 			} else if lm := w.led.M[st.ReqMember]; lm != nil {
@@ -867,12 +976,12 @@ func (w *coordWorld) step(e coordEv, judged bool) (string, []xstate.Violation) {
 			// a member the coordinator no longer knows gets a new id placed last
 			w.nextVal, w.nextValSet = w.pickVal(len(w.cur.IDs)), true
 		default:
-			st.ReqMember = w.idOf(e.M)
+			st.ReqMember = w.idOf(int(e.M))
 		}
 		st.ReqGen = st.Pre.Gen + int32(e.G)
-		if e.K == "commit" {
+		if e.K == coordKCommit {
 			st.CommitOff = 5
-			if st.PreOff[e.T] == 5 {
+			if st.PreOff[coordAllTPs[e.T]] == 5 {
 				st.CommitOff = 7
 			}
 		}
@@ -896,22 +1005,29 @@ func (w *coordWorld) step(e coordEv, judged bool) (string, []xstate.Violation) {
 		if st.Resp.Panic != "" {
 			w.panics++
 		}
-		if (e.K == "join" || e.K == "rejoin") && st.Resp.Panic == "" && st.Resp.GoErr == "" && st.Resp.Member != "" && w.issueNo(st.Resp.Member) == 0 {
+		if (e.K == coordKJoin || e.K == coordKRejoin) && st.Resp.Panic == "" && st.Resp.GoErr == "" && st.Resp.Member != "" && w.issueNo(st.Resp.Member) == 0 {
 			w.ids = append(w.ids, st.Resp.Member)
 			w.vals[st.Resp.Member] = w.nextVal
 		}
 	}
 	st.Post = coordProject(w.c, w.store)
-	st.PostOff = coordReadOffsets(w.store)
+	if judged || e.K == coordKCommit { // only an OffsetCommit can write offsets; when judging, look anyway
+		st.PostOff = coordReadOffsets(w.store)
+	} else {
+		st.PostOff = st.PreOff
+	}
 	w.cur, w.curOff = st.Post, st.PostOff
 	if judged && w.orc != nil {
 		viol = w.orc.Check(w, st)
 	}
 	w.led.update(w, st)
 	w.noteDeparted(&st.Pre, &st.Post)
-	obs := w.obsStep(st)
+	obs := ""
+	if judged { // prefix events are replayed without building the trace text
+		obs = w.obsStep(st)
+	}
 	if st.Resp != nil && st.Resp.Panic != "" {
-		w.dead = "panic in " + e.K
+		w.dead = "panic in " + st.K
 	}
 	return obs, viol
 }
@@ -959,12 +1075,17 @@ func (w *coordWorld) advance(e coordEv, judged bool) (string, []xstate.Violation
 		w.led.updateTick(w, tk)
 		w.noteDeparted(&tk.Pre, &tk.Post)
 		for _, id := range tk.Pre.IDs {
-			if !tk.Post.has(id) {
+			if judged && !tk.Post.has(id) {
 				notes = append(notes, fmt.Sprintf("-%s@%.1fs", w.name(id), next.Sub(start).Seconds()))
 			}
 		}
 	}
-	w.curOff = coordReadOffsets(w.store)
+	if judged {
+		w.curOff = coordReadOffsets(w.store)
+	}
+	if !judged {
+		return "", nil
+	}
 	obs := fmt.Sprintf("%s: %s %s", e, strings.Join(notes, " "), w.obsDelta(&pre, &w.cur))
 	if w.obsState(&pre) == w.obsState(&w.cur) {
 		obs += " #trivial"
@@ -1043,7 +1164,7 @@ func (l *coordLedger) reconcile(at time.Time, pre, post *coordProj) {
 
 func (l *coordLedger) update(w *coordWorld, st *coordStep) {
 	r := st.Resp
-	switch st.Ev.K {
+	switch st.K {
 	case "failover":
 		l.Failovers++
 		for _, m := range l.M {
@@ -1080,7 +1201,7 @@ func (l *coordLedger) update(w *coordWorld, st *coordStep) {
 		}
 	}
 	l.reconcile(st.At, &st.Pre, &st.Post)
-	if st.Ev.K == "sync" && r.ok() && st.Post.Exists && st.ReqMember == l.LeaderNamed && l.allJoined(&st.Post, st.ReqGen) {
+	if st.K == "sync" && r.ok() && st.Post.Exists && st.ReqMember == l.LeaderNamed && l.allJoined(&st.Post, st.ReqGen) {
 		l.LeaderSyncedGen = st.ReqGen
 	}
 }
@@ -1251,14 +1372,14 @@ func coordRunCheck(t *testing.T, id string, mk func() coordOracle, rule string, 
 		return
 	}
 
+	defer debug.SetGCPercent(debug.SetGCPercent(coordGOGC())) // replays are allocation-heavy and short-lived
 	deadline := vh.Deadline().Add(-10 * time.Second)
 	plan := coordPlan()
 	var runsInfo []map[string]any
 	for _, cfg := range plan.Runs {
 		res := coordExplore(t, rep, cfg, mk, deadline)
 		info := map[string]any{"store": cfg.Store, "depth": cfg.Depth, "max_live": cfg.MaxLive, "max_issued": cfg.MaxIssued, "resubscribe": cfg.Resub,
-			"commit_partitions": cfg.CommitTPs, "deltas_ms": coordDeltasMs(cfg), "states": res.States, "transitions": res.Transitions,
-			"new_states_per_depth": res.Levels, "events_executed": res.Events}
+			"commit_partitions": cfg.CommitTPs, "deltas_ms": coordDeltasMs(cfg), "new_states_per_depth": res.Levels}
 		if res.Capped != "" {
 			rep.Cap(fmt.Sprintf("%s depth %d: %s", cfg.Store, cfg.Depth, res.Capped))
 			info["capped"] = res.Capped
@@ -1267,7 +1388,7 @@ func coordRunCheck(t *testing.T, id string, mk func() coordOracle, rule string, 
 		n := 0
 		for i := len(res.Examples) - 1; i >= 0 && n < 2; i-- {
 			ex := res.Examples[i]
-			rep.Sample(map[string]any{"store": cfg.Store, "history": coordEvStrings(ex.History), "trace": ex.Obs, "canonical_key": ex.Key})
+			rep.Sample(map[string]any{"store": cfg.Store, "history": coordEvStrings(ex.History), "trace": coordTrace(t, cfg, ex.History), "canonical_key": ex.Key})
 			n++
 		}
 	}
@@ -1299,13 +1420,20 @@ func coordEvStrings(h []coordEv) []string {
 func coordNontrivial(obs string) bool { return !strings.HasSuffix(obs, "#trivial") }
 
 func coordExplore(t *testing.T, rep *vh.Report, cfg *coordCfg, mk func() coordOracle, deadline time.Time) xstate.Result[coordEv] {
+	nviol := map[string]int{}
 	res := xstate.Run(xstate.Options[coordEv]{
-		Config: xstate.Config{MaxDepth: cfg.Depth, Deadline: deadline},
+		Config: coordShardCfg(xstate.Config{MaxDepth: cfg.Depth, Deadline: deadline}, fmt.Sprintf("%s-d%d-r%t", cfg.Store, cfg.Depth, cfg.Resub)),
 		Build:  func() xstate.System[coordEv] { return coordNewWorld(cfg, mk()) },
 		Wrap:   coordBubble(t),
 		Found: func(f xstate.Found[coordEv]) {
-			rep.Violation(f.Key, fmt.Sprintf("[%s store] %s | history: %s", cfg.Store, f.Detail, strings.Join(f.Obs, " ; ")),
-				coordReplay{Store: cfg.Store, Events: f.History, Trace: f.Obs})
+			nviol[f.Key]++
+			if nviol[f.Key] > 3 { // vh keeps three replays per key; only count the rest
+				rep.Violation(f.Key, "", nil)
+				return
+			}
+			trace := coordTrace(t, cfg, f.History)
+			rep.Violation(f.Key, fmt.Sprintf("[%s store] %s | history: %s", cfg.Store, f.Detail, strings.Join(trace, " ; ")),
+				coordReplay{Store: cfg.Store, Events: f.History, Trace: trace})
 		},
 		Transition: func(hist []coordEv, obs []string, key string, newState bool) {
 			last := obs[len(obs)-1]
@@ -1322,10 +1450,23 @@ func coordExplore(t *testing.T, rep *vh.Report, cfg *coordCfg, mk func() coordOr
 	return res
 }
 
+// coordShardCfg: with "shards": n in the registry vcheck starts n processes; they
+// cooperate through files in VERIF_SCRATCH (xstate ExchangeDir) as one BFS.
+func coordShardCfg(c xstate.Config, tag string) xstate.Config {
+	i, n := vh.Shard()
+	if dir := os.Getenv("VERIF_SCRATCH"); n > 1 && dir != "" {
+		c.Shard, c.NShards, c.ExchangeDir, c.ExchangeTag = i, n, dir, tag
+	}
+	return c
+}
+
 // coordCrossCheck explores cfg twice, with and without merging, and requires the same
 // canonical key set and the same violation keys. A difference is a harness error, never
 // a verdict.
 func coordCrossCheck(t *testing.T, rep *vh.Report, cfg *coordCfg, mk func() coordOracle, deadline time.Time) {
+	if i, _ := vh.Shard(); i != 0 {
+		return // runs unsharded in shard 0
+	}
 	if time.Now().After(deadline) {
 		rep.Cap("no-merge cross-check skipped: deadline")
 		return
@@ -1380,6 +1521,27 @@ func coordCrossCheck(t *testing.T, rep *vh.Report, cfg *coordCfg, mk func() coor
 	if onlyM != 0 || onlyU != 0 || len(vdiff) != 0 {
 		t.Fatalf("HARNESS-ERROR canonicalisation unsound: depth %d merged-only keys %d, unmerged-only keys %d (e.g. %q), violation key differences %v", cfg.Depth, onlyM, onlyU, ex, vdiff)
 	}
+}
+
+func coordGOGC() int {
+	if v, err := strconv.Atoi(os.Getenv("VERIF_COORD_GOGC")); err == nil {
+		return v
+	}
+	return 100
+}
+
+// coordTrace re-executes a history (no oracle) and returns the observation of every step.
+func coordTrace(t *testing.T, cfg *coordCfg, hist []coordEv) []string {
+	var trace []string
+	coordBubble(t)(func() {
+		w := coordNewWorld(cfg, nil)
+		defer w.Close()
+		for _, e := range hist {
+			obs, _ := w.Apply(e)
+			trace = append(trace, obs)
+		}
+	})
+	return trace
 }
 
 // coordRunReplay re-executes one history with every step judged.
